@@ -167,7 +167,7 @@ def completeness():
 
     objs = set()
     for c in {t.func for t in R.TEMPLATES}:
-        if c.startswith("ndarray"):
+        if c.startswith(("ndarray", "unyt.")):
             continue
         o = np
         for part in c.split(".")[1:]:
